@@ -1,3 +1,4 @@
+import BycycleModel.Routing
 import Proofs.Zerox
 /-!
 # C03 — flank midpoints sit where the flank crosses its half-height
@@ -86,5 +87,9 @@ example : validSeq 8 (interleave (decide (2 < 0)) [2, 7] [0, 5]) = true ∧
     (interleave (decide (2 < 0)) [2, 7] [0, 5]).length = 4 := by decide +kernel
 example : crossingsSpec [0, 2, 0, 2, 0, 2, 1] .rise (1/2) = [0, 2, 4] ∧ flankMidSpec [0, 2, 0, 2, 0, 2, 1] .rise = 2 := by
   decide +kernel
+
+/-- the wiring read off the source: `find_extrema` searches the crossings of the FILTERED signal, `find_zerox` searches every rise from a trough to a
+peak and every decay from a peak to a trough on the signal it was given. -/
+theorem C03_routing : ∀ r ∈ Routing.cyclepoints, Routing.holds Slots.routes r = true := by decide +kernel
 
 end Bycycle
